@@ -138,7 +138,12 @@ NAMES = {"FooBar": {"lower": "foobar", "upper": "FOOBAR", "pascal": "FooBar", "c
          "Abc": {"lower": "abc", "upper": "ABC", "pascal": "Abc", "camel": "abc", "snake": "abc", "ssnake": "ABC",
                  "kebab": "abc", "skebab": "ABC"},
          "some_thing": {"lower": "something", "upper": "SOMETHING", "pascal": "SomeThing", "camel": "someThing",
-                        "snake": "some_thing", "ssnake": "SOME_THING", "kebab": "some-thing", "skebab": "SOME-THING"}}
+                        "snake": "some_thing", "ssnake": "SOME_THING", "kebab": "some-thing", "skebab": "SOME-THING"},
+         # raw identifiers: the name is the identifier without its `r#`
+         "r#type": {"lower": "type", "upper": "TYPE", "pascal": "Type", "camel": "type", "snake": "type", "ssnake": "TYPE",
+                    "kebab": "type", "skebab": "TYPE"},
+         "r#Match": {"lower": "match", "upper": "MATCH", "pascal": "Match", "camel": "match", "snake": "match",
+                     "ssnake": "MATCH", "kebab": "match", "skebab": "MATCH"}}
 
 
 def implicit_cases():
@@ -181,7 +186,7 @@ pub fn run() {{ let got = format!("{{}}", {ctor}); let r = String::from({vlib.ru
         mods.append((k, f"""use super::*;
 #[derive(derive_more::Display)]
 pub enum E {{ {nm}, Other }}
-pub fn run() {{ let got = format!("{{}}", E::{nm}); let r = String::from({vlib.rust_str(nm)});
+pub fn run() {{ let got = format!("{{}}", E::{nm}); let r = String::from({vlib.rust_str(nm[2:] if nm.startswith("r#") else nm)});
     report({json.dumps(k)}, got, r.clone(), r); }}"""))
     return mods
 
@@ -189,7 +194,7 @@ pub fn run() {{ let got = format!("{{}}", E::{nm}); let r = String::from({vlib.r
 def run(chk, tier, seed, replay):
     chk.assumptions += ["every field is a `&'static i32` (implements all nine traits, so any placeholder trait can refer to any field)",
                         "shape (tuple struct / named struct / enum variant) and derived trait rotate over the cases by hash",
-                        "rename_all: 8 casings x 3 unambiguous names (fixed expectation table)"]
+                        "rename_all: 8 casings x 5 unambiguous names, two of them raw identifiers (fixed expectation table)"]
     r = vlib.run_tlc("MC_FmtText", f"MC_FmtText_{tier}", workers=8, timeout=1800, xmx="6g")
     chk.add_tlc(r, "literals x argument lists")
     if not r.ok:
